@@ -300,6 +300,14 @@ func search(prop string, or func(string) string, depth, maxFail int) {
 					if len(fails) < maxFail {
 						fails = append(fails, fmt.Sprintf("%q: %s", s, msg))
 					}
+					if len(fails) >= maxFail {
+						// stop at once: hung parses may be spinning in leaked goroutines
+						fmt.Printf("SEARCH prop=%s depth=%d evaluated=%d failures=%d (stopped early)\n", prop, depth, atomic.LoadInt64(&total), len(fails))
+						for _, f := range fails {
+							fmt.Println("FAILING-INPUT", f)
+						}
+						os.Exit(1)
+					}
 					mu.Unlock()
 				}
 			}
